@@ -251,9 +251,9 @@ func (g *gen) step() Step {
 	case 30:
 		return un("Normalize", args("id", g.pickAttr(m, 3, 2)))
 	case 31:
-		return un("FlatNormals", args())
+		return un("FlatNormals", args("e", []int{0, 0, 10, 30, -30}[g.r.Intn(5)]))
 	case 32:
-		return un("SmoothNormals", args())
+		return un("SmoothNormals", args("e", []int{0, 0, 10, 30, -30}[g.r.Intn(5)]))
 	case 33:
 		return un("Laplacian", args("id", g.pickAttr(m, 3, 1), "iters", 1+g.r.Intn(3), "lam2", 1+g.r.Intn(2)))
 	case 0, 1, 2, 3:
